@@ -700,22 +700,31 @@ func (a *analyzer) refine(fn *ssa.Function, st *state, cond ssa.Value, truth boo
 	if u, ok := cond.(*ssa.UnOp); ok && u.Op == token.NOT {
 		return a.refine(fn, st, u.X, !truth)
 	}
-	if c, ok := cond.(*ssa.Call); ok && len(c.Call.Args) == 1 {
-		// a pure library predicate on a read result: if it is false for the end-of-input sentinel, its being true
-		// means a real byte was read
-		v := c.Call.Args[0]
-		for i := 0; i < 2; i++ {
-			if cv, ok := v.(*ssa.Convert); ok {
-				v = cv.X
+	if c, ok := cond.(*ssa.Call); ok && len(c.Call.Args) >= 1 {
+		// a pure predicate on a read result (library character class, or a side-effect-free helper of the repository
+		// with further constant arguments such as a class mask): the argument that is a read result
+		var v, arg ssa.Value
+		for _, a0 := range c.Call.Args {
+			w := a0
+			for i := 0; i < 2; i++ {
+				if cv, ok := w.(*ssa.Convert); ok {
+					w = cv.X
+				}
+			}
+			w = a.res(st, w)
+			if _, isRead := st.ints[w]; isRead {
+				v, arg = w, a0
 			}
 		}
-		v = a.res(st, v)
+		if v == nil {
+			return st
+		}
 		if cur, isRead := st.ints[v]; isRead {
 			// the predicate is folded for every value the read result can still have: the result keeps those for which
 			// the predicate has the value of this branch (pure library predicate or pure helper of the repo, purefn.go)
 			lo, hi, known := INF, -INF, true
 			for k := max(cur.lo, -1); k <= min(cur.hi, 255) && known; k++ {
-				switch evalCond(cond, c.Call.Args[0], k) {
+				switch evalCondAliases(cond, map[ssa.Value]bool{arg: true, v: true}, k) {
 				case -1:
 					known = false
 				case 1:
@@ -981,6 +990,7 @@ func RunCursor(p *Prog, pkgpath string) *CursorResult {
 	a := &analyzer{p: p, prog: p.SSA, sums: map[*ssa.Function]*summary{}, obs: map[string]*cob{}, callw: map[[2]*ssa.Function]int{},
 		ords: map[ssa.Instruction]int{}, loopOrd: map[*ssa.BasicBlock]int{}, posIdx: -1, inIdx: -1}
 	res.A = a
+	foldProg = p
 	// cursor type: a named struct with pointer methods, one of which indexes string-member[int-member]
 	for _, f := range p.FuncsOf(pkgpath) {
 		for _, b := range f.Blocks {
